@@ -796,3 +796,89 @@ def run_symderef(chk, F, rid="R-SYMDEREF"):
     for key in SYMDEREF_EXEMPT:
         if key not in used:
             chk.note("R-SYMDEREF: the listed site %s no longer exists" % (key,))
+
+
+# ---------------------------------------------------------------------------------------------- R-FIXEDIDX
+def run_fixedidx(chk, F, rid="R-FIXEDIDX"):
+    """Literal child indices: inside the case of a kind K, `e[k]` / `get(k)` on the node being dispatched on needs
+    k < arity(K), where arity is what expression_t::get_size() returns for K (and what R-ARITY ties to every
+    construction site).  Decided per kind with the per-kind slice of each dispatch function."""
+    from ..inline import KindSlicer, strip
+    from .exprlaws import size_table
+    chk.rule(rid, "in every function that dispatches on the kind of an expression (checkExpression, print, get_symbol(s), "
+                  "collect_possible_writes/reads, ...): a child access with a literal index k in the part executed for "
+                  "kind K has k < get_size(K)")
+    tab, _ = size_table(F)
+    targets = [("UTAP::TypeChecker::checkExpression", None), ("UTAP::expression_t::print", "this"),
+               ("UTAP::expression_t::get_symbol", "this"), ("UTAP::expression_t::get_symbols", "this"),
+               ("UTAP::expression_t::collect_possible_writes", "this"),
+               ("UTAP::expression_t::collect_possible_reads", "this")]
+    total = 0
+    for q, subj in targets:
+        fn = F.fn(q)
+        subject = subj or fn["params"][0]["name"]
+        sl = KindSlicer(F, fn, subject=subject, expand_helpers=False)
+        labels = {n["v"].get("name") for n in walk(fn["body"]) if n.get("k") == "case" and isinstance(n.get("v"), dict) and
+                  n["v"].get("k") == "ref"}
+        bad, sites = [], 0
+        for K in sorted(k for k in labels if k):
+            ar = tab.get(K)
+            if not isinstance(ar, int):
+                continue
+            for c in calls(sl.slice(K)):
+                if c.get("cls") != "UTAP::expression_t" or not (c.get("name") == "get" or (c.get("ck") == "op" and c.get("op") == "[]")):
+                    continue
+                a = c.get("args") or []
+                if not a or strip(a[-1]).get("k") != "int":
+                    continue
+                recv = c.get("recv") if c.get("recv") is not None else (a[0] if len(a) > 1 else None)
+                r = strip(recv) if recv is not None else None
+                on = (r is None or r.get("k") == "this") if subject == "this" else \
+                    (isinstance(r, dict) and r.get("k") == "ref" and r.get("name") == subject)
+                if not on:
+                    continue
+                sites += 1
+                if strip(a[-1])["v"] >= ar:
+                    bad.append("%s: %s with %d child(ren) (line %s)" % (K, short(c), ar, c.get("l")))
+        total += sites
+        chk.ob(rid, fn["name"], not bad,
+               "%s reads a child that the node does not have: %s - get() / operator[] do not check the range" %
+               (fn["q"], "; ".join(bad[:4])), "%s:%s" % (fn["file"], fn["line"]),
+               sample="%s: %d literal child accesses below the arity of their kind" % (fn["name"], sites))
+    if total < 400:
+        raise AnalysisBroken("only %d literal child accesses found in the dispatch functions" % total)
+    chk.analysed[rid] = {"literal_child_accesses": total}
+
+
+# ---------------------------------------------------------------------------------------------- R-OPTDEREF
+def run_optderef(chk, F, rid="R-OPTDEREF"):
+    from ..inline import sites_with_conditions, strip
+    chk.rule(rid, "every *opt / opt->x / opt.value() on a std::optional (find_index_of, get_index_of) is reached only on "
+                  "a path that has tested that optional and found it engaged")
+    n = 0
+    for fn in sorted(F.functions.values(), key=lambda f: (f.get("file") or "", f.get("line") or 0)):
+        fl = fn.get("file") or ""
+        if fn.get("body") is None or fl.startswith("/usr") or "/test/" in fl:
+            continue
+        for site, conds in sites_with_conditions(fn["body"], lambda x: x.get("k") == "call" and
+                                                 (x.get("cls") or "") == "std::optional" and
+                                                 x.get("name") in ("operator*", "operator->", "value")):
+            r = strip(site.get("recv") or {})
+            rid_ = r.get("id") if r.get("k") == "ref" else None
+            ok = False
+            for c, t in conds:
+                c0, neg = strip(c), False
+                while isinstance(c0, dict) and c0.get("k") == "un" and c0.get("op") == "!":
+                    c0, neg = strip(c0["e"]), not neg
+                if isinstance(c0, dict) and c0.get("k") == "call" and c0.get("name") in ("operator bool", "has_value"):
+                    c0 = strip(c0.get("recv") or {})
+                same = (c0.get("k") == "ref" and c0.get("id") == rid_ and rid_ is not None) or \
+                    (rid_ is None and short(c0) == short(r))
+                if same and t != neg:
+                    ok = True
+            n += 1
+            chk.ob(rid, "%s|%s" % (fn["name"], short(site)[:30]), ok,
+                   "%s dereferences the optional `%s` on a path that has not established that it holds a value" %
+                   (fn["q"], short(r)[:30]), "%s:%s" % (fn["file"], site.get("l")))
+    if n < 4:
+        raise AnalysisBroken("only %d optional dereferences found" % n)
